@@ -193,7 +193,15 @@ func startBystander(f *Fixture, tag string) *bystander {
 			}
 			slot := defaultSlots[i%len(defaultSlots)]
 			key := refmodel.KeyInSlot(slot, fmt.Sprintf("by%s.%d", tag, i))
-			if err := cl.Write(refmodel.EncodeCmdS("set", key, "b")); err != nil {
+			req := refmodel.EncodeCmdS("set", key, "b")
+			want := refmodel.Bulk(fakecluster.EchoValue("set", key))
+			if i%3 == 2 {
+				// every third round trip is a request split over two slots
+				k2 := refmodel.KeyInSlot(defaultSlots[(i+5)%len(defaultSlots)], fmt.Sprintf("by%s.%d.b", tag, i))
+				req = refmodel.EncodeCmdS("mget", key, k2)
+				want = refmodel.Array(refmodel.Bulk(fakecluster.EchoValue("mget", key)), refmodel.Bulk(fakecluster.EchoValue("mget", k2)))
+			}
+			if err := cl.Write(req); err != nil {
 				b.fail("bystander write failed on round trip %d: %v", i, err)
 				return
 			}
@@ -208,7 +216,6 @@ func startBystander(f *Fixture, tag string) *bystander {
 				}
 			}
 			got := cl.Snapshot().Replies[i].Raw
-			want := refmodel.Bulk(fakecluster.EchoValue("set", key))
 			if !bytes.Equal(got, want) {
 				b.fail("bystander round trip %d: got %s want %s", i, q(got), q(want))
 				return
